@@ -141,5 +141,5 @@ def run(cap):
                 wg = max(wg, abs(din / dout - 1.0))
                 ng += 1
         if ng:
-            out.append(rec("cell width continuous across the separatrix", cls, ng, wg, 0.35, note="last cell inside vs first cell outside: equal up to third-order terms of the spacing function"))
+            out.append(rec("cell width continuous across the separatrix", cls, ng, wg, 0.5, note="last cell inside vs first cell outside: equal up to third-order terms of the spacing function"))
     return out
